@@ -176,6 +176,11 @@ class YamlDocument(HierDictDocument):
             # and the bytes may not be in the announced (or any known) charset
             raise Fault('Client.YamlDecodeError', repr(e))
 
+        except ValueError as e:
+            # the scalar constructors call int() and friends: an integer
+            # literal longer than the interpreter converts is a ValueError
+            raise Fault('Client.YamlDecodeError', repr(e))
+
     def create_out_string(self, ctx, out_string_encoding='utf8'):
         """Sets ``ctx.out_string`` using ``ctx.out_document``."""
 
